@@ -127,7 +127,7 @@ func runC07Request(world map[string]any, rq map[string]any) (map[string]any, err
 	if occ == 1 && ur == 0 {
 		body := []byte("landing " + Marker + "\n")
 		d := sb.w.Dir
-		for _, rel := range []string{"x", "abs", "config/x.yaml", "../x", "../../x", "root.bak/n", "config/Users-x/a.yaml"} {
+		for _, rel := range []string{"x", "abs", "config/x.yaml", "../x", "../../x", "../abs", "root.bak/n", "config/Users-x/a.yaml"} {
 			_ = os.WriteFile(filepath.Join(d, rel), body, 0644)
 		}
 	}
@@ -172,11 +172,6 @@ func runC07Request(world map[string]any, rq map[string]any) (map[string]any, err
 	fsize := -1
 	reps := []string{}
 
-	typ, fields, err := buildRequest(rq)
-	if err != nil {
-		return nil, err
-	}
-
 	if kind == "acct" {
 		for _, o := range listOf(rq["ops"]) {
 			m, _ := o.(map[string]any)
@@ -190,46 +185,30 @@ func runC07Request(world map[string]any, rq map[string]any) (map[string]any, err
 			}
 		}
 	} else {
-		r, err := request(c, typ, fields...)
-		if err != nil {
-			return nil, err
-		}
-		reps = append(reps, r.status)
-		if r.status == "ok" {
-			switch kind {
-			case "list":
-				listed = 1
-				for _, e := range parseList(r.tx) {
-					names = append(names, e["n"].([]int))
-				}
-			case "info", "download":
-				if b, ok := r.tx.Get(sim.FFileSize); ok {
-					fsize = sim.BE(b)
-				}
+		// one request, or (kind "seq") a short history of requests in the same sandbox
+		steps := []map[string]any{rq}
+		if kind == "seq" {
+			steps = nil
+			for _, st := range listOf(rq["steps"]) {
+				m, _ := st.(map[string]any)
+				steps = append(steps, m)
 			}
-			if ref, ok := r.tx.Get(sim.FRefNum); ok && len(ref) == 4 {
-				var payload []byte
-				switch kind {
-				case "dlfolder":
-					for i := 0; i < 200; i++ {
-						payload = append(payload, 0, 1)
-					}
-				case "upload":
-					payload = flatFile([]byte("up"), []byte("UPL"))
-				case "upfolder":
-					it, _ := rq["item"].(map[string]any)
-					raw := bytesOf(it["raw"])
-					payload = append(payload, sim.U16(4+len(raw))...)
-					payload = append(payload, sim.U16(intOf(it["folder"]))...)
-					payload = append(payload, sim.U16(intOf(it["count"]))...)
-					payload = append(payload, raw...)
-					if intOf(it["folder"]) == 0 {
-						ff := flatFile([]byte("it"), []byte("ITM"))
-						payload = append(payload, sim.U32(len(ff))...)
-						payload = append(payload, ff...)
-					}
-				}
-				xferBytes, xfer = runTransfer(sb.w, ref, payload)
+		}
+		for _, st := range steps {
+			o, err := execStep(sb, c, st)
+			if err != nil {
+				return nil, err
+			}
+			reps = append(reps, o.rep)
+			xferBytes = append(xferBytes, o.xferBytes...)
+			if o.xfer != "none" {
+				xfer = o.xfer
+			}
+			if kind != "seq" {
+				names, listed, fsize = o.names, o.listed, o.fsize
+			}
+			if o.rep == "closed" {
+				break
 			}
 		}
 	}
@@ -250,6 +229,69 @@ func runC07Request(world map[string]any, rq map[string]any) (map[string]any, err
 	ev["disclosed"] = disclosed
 	ev["diff"] = diffNodes(before, after)
 	return ev, nil
+}
+
+type stepObs struct {
+	rep       string
+	names     [][]int
+	listed    int
+	fsize     int
+	xfer      string
+	xferBytes []byte
+}
+
+// execStep sends one file request and, if the reply carries a transfer reference, plays the transfer.
+func execStep(sb *sandbox, c *sim.Client, rq map[string]any) (stepObs, error) {
+	o := stepObs{names: [][]int{}, fsize: -1, xfer: "none"}
+	kind := strOf(rq["kind"])
+	typ, fields, err := buildRequest(rq)
+	if err != nil {
+		return o, err
+	}
+	r, err := request(c, typ, fields...)
+	if err != nil {
+		return o, err
+	}
+	o.rep = r.status
+	if r.status != "ok" {
+		return o, nil
+	}
+	switch kind {
+	case "list":
+		o.listed = 1
+		for _, e := range parseList(r.tx) {
+			o.names = append(o.names, e["n"].([]int))
+		}
+	case "info", "download":
+		if b, ok := r.tx.Get(sim.FFileSize); ok {
+			o.fsize = sim.BE(b)
+		}
+	}
+	if ref, ok := r.tx.Get(sim.FRefNum); ok && len(ref) == 4 {
+		var payload []byte
+		switch kind {
+		case "dlfolder":
+			for i := 0; i < 200; i++ {
+				payload = append(payload, 0, 1)
+			}
+		case "upload":
+			payload = flatFile([]byte("up"), []byte("UPL"))
+		case "upfolder":
+			it, _ := rq["item"].(map[string]any)
+			raw := bytesOf(it["raw"])
+			payload = append(payload, sim.U16(4+len(raw))...)
+			payload = append(payload, sim.U16(intOf(it["folder"]))...)
+			payload = append(payload, sim.U16(intOf(it["count"]))...)
+			payload = append(payload, raw...)
+			if intOf(it["folder"]) == 0 {
+				ff := flatFile([]byte("it"), []byte("ITM"))
+				payload = append(payload, sim.U32(len(ff))...)
+				payload = append(payload, ff...)
+			}
+		}
+		o.xferBytes, o.xfer = runTransfer(sb.w, ref, payload)
+	}
+	return o, nil
 }
 
 // acctOp sends one account operation: create350 | create349 | update | rename | delete351 | delete349.
@@ -345,7 +387,7 @@ func buildRequest(rq map[string]any) (typ int, fields []sim.F, err error) {
 		add(sim.FFileName, "name")
 		add(sim.FFilePath, "path")
 		fields = append(fields, sim.Fld(sim.FTransferSize, sim.U32(200)), sim.Fld(sim.FFolderItemCount, sim.U16(1)))
-	case "acct":
+	case "acct", "seq":
 	default:
 		return 0, nil, fmt.Errorf("unknown kind %q", strOf(rq["kind"]))
 	}
